@@ -108,6 +108,16 @@ package upstream
 //@   callsite getDialAddr: [C17:dial-addr-inputs] arg0 == urlAddrHost && arg1 == opt.DialAddr
 //@   callsite getDialAddr: [C17:default-port] arg2 == ((addrURL.Scheme == "" || addrURL.Scheme == "udp" || addrURL.Scheme == "tcp") ? "53" : ((addrURL.Scheme == "tls" || addrURL.Scheme == "quic" || addrURL.Scheme == "doq") ? "853" : (addrURL.Scheme == "http" ? "80" : "443")))
 //@   callsite tryRemovePort: [C17:server-name-from-url-host] arg0 == urlAddrHost
+// TLS settings: the handshake configuration is a copy of the configured one (certificate verification, roots and
+// client certificate as configured); DoQ adds its ALPN token and, like DoT, the URL host as server name only when none
+// is configured
+//@   ghost gSN string = ""
+//@   ghost gCfgName string = ""
+//@   aftercall tryRemovePort?: gSN = ret0
+//@   aftercall Clone?: gCfgName = (ret0 == nil ? "" : ret0.ServerName)
+//@   callsite Clone?: [C17:tls-settings-start-from-the-configured-ones] arg0 == opt.TLSConfig
+//@   callsite NewQuicTransport?: [C17:doq-alpn] len(tlsConfig.NextProtos) == 1 && tlsConfig.NextProtos[0] == "doq"
+//@   callsite NewQuicTransport?: [C17:doq-server-name-configured-or-url-host] tlsConfig.ServerName == (len(gCfgName) > 0 ? gCfgName : gSN)
 //@   ensures err == nil ==> u != nil
 
 // The dial closures NewUpstream hands to the transports: each dials exactly the computed dial address (the UDP
@@ -133,6 +143,31 @@ package upstream
 //@   modifies *
 //@   callsite DialContext: [C17:tls-dials-dial-addr] arg3 == dialAddr && arg2 == ((len(dialAddr) >= 1 && dialAddr[0] == '@') ? "unix" : "tcp")
 //@   callsite Client: [C17:handshake-with-configured-tls] arg1 == tlsConfig
+// the HTTP/3 and DoQ dial functions: the address resolved and dialled is the computed dial address, on this upstream's
+// own QUIC transport, with the TLS and QUIC configurations built for it (DoQ) / handed in by the HTTP/3 layer (h3);
+// a DoQ dial abandoned by its caller closes the connection it had started
+//@ closure NewUpstream$6
+//@   props C17
+//@   requires quicTransport != nil
+//@   ghost gUA *net.UDPAddr = nil
+//@   aftercall ResolveUDPAddr: gUA = ret0
+//@   modifies *
+//@   callsite ResolveUDPAddr: [C17:h3-resolves-dial-addr] arg0 == "udp" && arg1 == dialAddr
+//@   callsite DialEarly?: [C17:h3-dials-that-address-with-the-given-configurations] arg0 == quicTransport && typeIs(arg2, *net.UDPAddr) && ptrOf(arg2, net.UDPAddr) == gUA && arg3 == tlsCfg && arg4 == cfg
+//@ closure NewUpstream$8
+//@   props C17 C18
+//@   requires t != nil && ctx != nil
+//@   ghost gUA *net.UDPAddr = nil
+//@   ghost gEC quic.EarlyConnection = nil
+//@   ghost nCloseEC int = 0
+//@   aftercall ResolveUDPAddr: gUA = ret0
+//@   aftercall DialEarly?: gEC = ret0
+//@   oncall CloseWithError?: nCloseEC = nCloseEC + 1
+//@   modifies *
+//@   callsite ResolveUDPAddr: [C17:doq-resolves-dial-addr] arg0 == "udp" && arg1 == dialAddr
+//@   callsite DialEarly?: [C17:doq-dials-that-address-with-its-own-configurations] arg0 == t && typeIs(arg2, *net.UDPAddr) && ptrOf(arg2, net.UDPAddr) == gUA && arg3 == tlsConfig && arg4 == quicConfig
+//@   callsite CloseWithError?: [C18:abandoned-dial-closes-what-it-started] arg0 == gEC
+//@   callsite NextConnection?: [C17:the-connection-of-that-dial] arg0 == gEC
 //@ closure NewUpstream$7
 //@   props C17
 //@   requires dialer != nil
